@@ -2,6 +2,7 @@
 """MANIFEST.setup_cmd: offline build of the framework = parse every TLA+ module with SANY, check that the
 tooling the checks rely on is present, and run the binding self-tests (a corrupted trace must be rejected)."""
 import os
+import re
 import sys
 import subprocess
 
@@ -39,6 +40,18 @@ def main():
         with open(os.path.join(scratch, "EopData.tla"), "w") as fh:
             fh.write(mod)
         for f in mods:
+            if "EXTENDS" in open(os.path.join(scratch, f)).read() and ", TLAPS" in open(os.path.join(scratch, f)).read():
+                # a proof module: parsed and checked by the proof system itself (SANY has no TLAPS.tla on its path)
+                from lib import tlaps
+                try:
+                    good, nob, secs, out = tlaps.prove(f[:-4], extra_modules=[m[:-4] for m in mods if m != f and re.search(r"\b" + m[:-4] + r"\b", open(os.path.join(scratch, f)).read())])
+                except tlaps.TlapsFailure as e:
+                    good, nob, out = False, 0, str(e)
+                print(f"tlapm {f}: {'ok, %d obligations proved' % nob if good else 'FAILED'}")
+                if not good:
+                    print(out[-2000:])
+                    ok = False
+                continue
             good, out = tlc.sany(os.path.join(scratch, f))
             print(f"sany {f}: {'ok' if good else 'FAILED'}")
             if not good:
